@@ -64,7 +64,7 @@ FAMILIES = {
 DATAKW = {"ebv": "ebv", "gebv": "gebv", "wgebv": "wgebv", "gwgebv": "gwgebv", "random": "rbv", "embv": "embv", "ohv": "ohvmat", "uc": "ucmat"}
 
 
-def one_case(cid, fam, rng):
+def one_case(cid, fam, rng, ksel=None):
     mod, stem, suffix, kind = FAMILIES[fam]
     n = rng.randrange(2, 8); T = rng.randrange(1, 3)
     c = [rng.choice([0, 0, 1, 1, 2, 3]) for _ in range(n)]
@@ -72,6 +72,9 @@ def one_case(cid, fam, rng):
         c = [1 if rng.random() < 0.65 else 0 for _ in range(n)]
     if sum(c) == 0:
         c[rng.randrange(n)] = 1
+    if ksel is not None:              # systematic: exactly ksel selected candidates (every subset size is met by every family)
+        n = max(n, ksel + rng.randrange(0, 2)); n = min(n, 7) if ksel <= 7 else ksel
+        c = [1] * ksel + [0] * (n - ksel); rng.shuffle(c)
     k = sum(c)
     case = {"id": cid, "fam": kind, "family": fam, "c": c, "err": None, "obs": [], "dataok": True}
     d = np.array([[rng.randrange(-4, 6) for _ in range(T)] for _ in range(n)], dtype=float)
@@ -117,7 +120,25 @@ def one_case(cid, fam, rng):
         with time_limit(60), np.errstate(all="ignore"):
             for encname, enc, x in decisions(c, rng):
                 cls = get(mod, stem + enc + suffix)
-                prob = cls(nobj=nlat, **kw, **space(enc, n, k))
+                fkeys = [key for key, v in kw.items() if isinstance(v, np.ndarray) and v.dtype.kind == "f" and key != "decn_space_xmap"]
+                if rng.random() < 0.3 and fkeys and all(isinstance(getattr(cls, key, None), property) and getattr(cls, key).fset for key in fkeys):
+                    # use-then-edit: the problem is built on OTHER data and evaluated (whatever it memoises is filled); its
+                    # data arrays are then replaced through the public setters, or overwritten in place
+                    kw0 = {key: ((np.triu(v + 1.0) if key == "C" else np.array(v, copy=True) + 1.0)
+                                 if isinstance(v, np.ndarray) and v.dtype.kind == "f" and key != "decn_space_xmap" else v)
+                           for key, v in kw.items()}
+                    prob = cls(nobj=nlat, **kw0, **space(enc, n, k))
+                    prob.latentfn(x); prob.evalfn(x)
+                    for key, v in kw.items():
+                        if isinstance(v, np.ndarray) and v.dtype.kind == "f" and key != "decn_space_xmap":
+                            cur = getattr(prob, key)
+                            if rng.random() < 0.5 and isinstance(cur, np.ndarray) and cur.shape == v.shape:
+                                cur[...] = v
+                            else:
+                                setattr(prob, key, np.array(v, copy=True))
+                    case["edited"] = True
+                else:
+                    prob = cls(nobj=nlat, **kw, **space(enc, n, k))
                 case["obs"].append({"enc": encname, "vals": tr(prob.latentfn(x)), "trans": "identity", "wobj": [1] * nlat, "lw": [1] * nlat})
                 # evaluate(): the reported objectives with default weights/transformations are the latent vector
                 if kind == "lin" and encname in ("subset", "integer"):
@@ -240,6 +261,8 @@ def run(ctx):
     for fam in FAMILIES:
         for _ in range(reps):
             allc.append(one_case(len(allc) + 1, fam, rng))
+        for ksel in range(1, 7):
+            allc.append(one_case(len(allc) + 1, fam, rng, ksel=ksel))
     for _ in range(reps * 2):
         allc.append(pafd_case(len(allc) + 1, rng))
     for which in ("ebv.from_bvmat", "gebv.from_gmat_gpmod", "ocs.from_bvmat_gmat", "mgr.from_gmat"):
@@ -247,6 +270,9 @@ def run(ctx):
             allc.append(factory_case(len(allc) + 1, which, rng))
     verd = cases.validate(ctx, "SelObjective_Trace", "SelObjective_Trace.cfg",
                           [{k: v for k, v in c.items() if k != "family"} for c in allc], "SelObjective_Trace", chunk=20, procs=14)
+    ctx.extra["use_then_edit_cases"] = sum(1 for c in allc if c.get("edited"))
+    if not ctx.extra["use_then_edit_cases"]:
+        raise tlc.TLCFailure("vacuous: no use-then-edit case was produced")
     ctx.traces += len(allc)
     for c in allc:
         v, enc = verd[c["id"]]
